@@ -186,7 +186,7 @@ func (m *Model) RunOwn(s *Sink, rule string) {
 		}
 	}
 	// missing component file -> error naming the component
-	act := m.PkgFunc("textwire", "applyComponentToProgram")
+	act := m.PkgFuncOr("textwire", "applyComponentToProgram", func(f *ssa.Function) bool { return callsNamed(f, "ApplyComponent", "ast.Program") })
 	if act != nil {
 		ok := false
 		var actBlocks []*ssa.BasicBlock
